@@ -17,7 +17,7 @@ const SnapDepth = 6
 // PrimNames are the builtin / host functions the model knows as first-class values.
 var PrimNames = map[string]bool{"+": true, "-": true, "*": true, "<": true, ">": true, "<=": true, ">=": true,
 	"==": true, "!=": true, "not": true, "cons": true, "first": true, "rest": true, "list": true, "array": true,
-	"aget": true, "aset": true, "append": true, "len": true, "map": true, "apply": true, "trace": true, "failk": true}
+	"aget": true, "aset": true, "append": true, "len": true, "concat": true, "map": true, "apply": true, "trace": true, "failk": true}
 
 // QuotedSyms is the pool of quoted symbols; the runner numbers them in this order and Runner
 // interns them in this order in every fresh interpreter (symbols compare by number).
